@@ -29,8 +29,12 @@ let header_lines (h : string) : float tok list list =
   if h = "" then [] else List.map (tokens_of is_simple_number) (String.split_on_char '\n' h)
 
 let rd_round r = integer r <> 0
-let handler r =
+(* "amb <spec> <round-trip case>": the same request made in a process whose ambient state (global C++ locale, std::cout
+   formatting state, old file at the path, working directory) was changed beforehand.  The functions of Utilities.cpp build
+   their own streams, both the writer's and the reader's from the one global locale; the model's answer does not depend on it. *)
+let rec handler r =
   match word r with
+  | "amb" -> let _spec = word r in handler r
   | "in_units_s" -> let q = num r in let dim = num r in let rd = rd_round r in let dg = integer r in
       res_out put_f (in_units fops q dim rd (z_of_int dg))
   | "in_units_l" -> let q = list r in let dim = num r in let rd = rd_round r in let dg = integer r in
@@ -62,6 +66,25 @@ let handler r =
       let dims = list r in let lg = integer r <> 0 in
       res_out (fun (c, t) -> put_i (int_of_z c); put_table t)
         (roundtrip_function_range fops fmt6 h f a b (nat_of_int steps) dims lg)
+  | "session" ->
+      let np = integer r in let _paths = List.init np (fun _ -> word r) in
+      let nops = integer r in
+      let calls = List.init nops (fun _ ->
+        let k = word r in let p = nat_of_int (integer r) in
+        match k with
+        | "el" -> let h = header_lines (unhex (word r)) in let l = list r in let d = num r in OExportList (p, h, l, d)
+        | "et" -> let h = header_lines (unhex (word r)) in let t = table r in let d = list r in OExportTable (p, h, t, d)
+        | "il" -> let d = num r in let ign = integer r in OImportList (p, d, nat_of_int ign)
+        | "it" -> let d = list r in let ign = integer r in OImportTable (p, d, nat_of_int ign)
+        | _ -> OCountLines p) in
+      (match io_run fops fmt6 [] calls with
+       | Ok (_, outs) ->
+           let n = ref 0 in
+           List.iter (fun a -> match a with
+             | RUnit -> () | RList l -> incr n; put_fl l | RTable t -> incr n; put_table t
+             | RCount c -> incr n; put_i (int_of_z c)) outs;
+           if !n = 0 then put_w "done"
+       | Exit -> put_w "EXIT" | OOB -> put_w "OOB" | Fuel -> put_w "FUEL")
   | "import_missing" -> let _path = word r in let which = integer r in
       if which = 0 then res_out put_fl (import_list fops None 1.0 O)
       else res_out put_table (import_table fops None [] O)
